@@ -169,6 +169,29 @@ def long_inputs(check, tier):
     s.done()
 
 
+def parameter_lists(check, tier):
+    """every SGR / CSI parameter list of <= 3 parameters over a pool that holds the resets, colours, bright colours and the extended-colour
+    introducers 38 / 48 with their selectors 5 and 2 (complete and truncated 38;5;n / 38;2;r;g;b forms arise from it), with finals
+    m and H, inside text with a newline: no exception, ordinary text kept"""
+    pool = ["", "0", "1", "2", "5", "22", "31", "38", "39", "44", "48", "49", "90", "107", "255"]
+    s = Suite(check, "C17.parameter_lists", f"ESC[ p1;p2;p3 m / H for every parameter list of <= 3 parameters over {len(pool)} values (resets, colours, "
+              "38 / 48 with selectors 5 and 2, empty fields) inside 'a<seq>b\\nc', and the 4- and 5-parameter extended-colour forms complete and "
+              "truncated: no exception, ordinary text kept", bound="<= 3 parameters (extended colours <= 5)")
+    lists = [()] + [(p,) for p in pool] + list(itertools.product(pool, repeat=2)) + list(itertools.product(pool, repeat=3))
+    lists += [("38", "2", "10", "20"), ("38", "2", "10", "20", "30"), ("48", "2", "1", "2", "3"), ("1", "38", "5"), ("38", "5", "196", "1"),
+              ("48", "5"), ("38",), ("38", "2"), ("0", "48", "2", "9")]
+    for ps in lists:
+        for fin in ("m", "H"):
+            if fin == "H" and len(ps) == 3 and hash(ps) % 5:
+                continue
+            st = "a\x1b[" + ";".join(ps) + fin + "b\nc"
+            s.case((ps, fin), sample=dict(s=st) if len(s.samples) < 2 else None)
+            d = judge(st)
+            if d:
+                s.fail("C17.fmtstr.parameter_list", dict(s=st), d[:300], replay={"kind": "suite", "module": "props.C17", "case": dict(s=st)})
+    s.done()
+
+
 def deductive(check, tier):
     """the clause "text without introducers is returned unchanged and unformatted" for the larger class of strings free of 'ESC[':
     the real bodies of fmtstr (no formatting arguments) and FmtStr.from_str, all such strings (contracts/formatstring.py)"""
@@ -183,3 +206,4 @@ def run(check, tier, seed):
     deductive(check, tier)
     bounded(check, tier)
     long_inputs(check, tier)
+    parameter_lists(check, tier)
